@@ -178,7 +178,7 @@ def jobs(tier, seed):
     out = []
     quick = tier == "quick"
     L = 2 if quick else 3
-    shapes = ["G-FIN", "G-LIN", "G-PAL"] if quick else ["G-FIN", "G-LIN", "G-PAL", "G-NU", "G-LR", "G-S1", "G-DUP", "G-WIDE", "G-MUT"]
+    shapes = ["G-FIN", "G-LIN", "G-PAL", "G-DIA"] if quick else ["G-FIN", "G-LIN", "G-PAL", "G-NU", "G-LR", "G-S1", "G-DUP", "G-WIDE", "G-MUT"]
     for sh in shapes:
         sk = grammar(sh)
         contexts = [list(x) for x in all_strings(sk.V, L)]
